@@ -438,7 +438,7 @@ func runC15(ctx Ctx) int {
 		}
 	}
 	run := ev.NewRun("C15")
-	run.Rule = "stateless exploration under a cooperative scheduler: every interleaving, within the preemption bound, of 2-3 real requests against ONE provider (120 pairs over 15 request bodies incl. every body with itself, 3 triples); scheduling points before EVERY STATEMENT of every repository function (and at every function / function-literal entry, every storage call, every sync-shim operation); a state is a schedule (choice sequence); oracle: each reply (IDs, signature bytes masked) equals the reply the same request gets alone on a fresh provider, a request sent on to the login UI was persisted by itself exactly once and is sent to the id returned for it, no reply or storage call carries another session's marker, all message IDs of all threads and executions are distinct NCNames, no deadlock; history companion: every sequence of <= 3 requests on one provider gives each the solo reply; race companion: the same bodies free-running in a -race build"
+	run.Rule = "stateless exploration under a cooperative scheduler: every interleaving, within the preemption bound, of 2-3 real requests against ONE provider (120 pairs over 15 request bodies incl. every body with itself, 3 triples); scheduling points before EVERY STATEMENT of every repository function (and at every function / function-literal entry, every storage call, every sync-shim operation); a state is a schedule (choice sequence); oracle: each reply (IDs, signature bytes masked) equals the reply the same request gets alone on a fresh provider, a request sent on to the login UI was persisted by itself exactly once and is sent to the id returned for it, no reply or storage call carries another session's marker, all message IDs of all threads and executions are distinct NCNames, no deadlock; history companion: every sequence of <= 3 requests on one provider gives each the solo reply and never repeats a message ID; b1 ; one failing storage operation (8 operations) ; b2 gives b2 the reply it gets on a fresh provider with the same failure; race companion: the same bodies free-running in a -race build"
 	run.Assume = []string{"interleavings inside one statement, inside the Go runtime and inside third-party libraries are not explored by the scheduler; unsynchronised accesses there are the race companion's business (free-running, not exhaustive)", "preemption bound as reported; N is 2-3 threads"}
 	if ctx.Replay != "" {
 		var rp c15Replay
@@ -545,8 +545,23 @@ func runC15(ctx Ctx) int {
 		seq := seqs[i]
 		w := c15World()
 		var last c15Obs
+		seenIDs := map[string]bool{}
+		dupID := ""
 		for _, bi := range seq {
 			last = c15Observe(w.Do(bs[bi].Req(w)))
+			for _, id := range last.IDs {
+				if seenIDs[id] {
+					dupID = id
+				}
+				seenIDs[id] = true
+			}
+		}
+		if dupID != "" {
+			labels := []string{"history"}
+			for _, bi := range seq {
+				labels = append(labels, "step="+bs[bi].Name)
+			}
+			run.Violate("message-id-not-unique", "sequential", labels, map[string]any{"id": dupID}, nil)
 		}
 		run.Evaluations.Add(1)
 		run.Transitions.Add(int64(len(seq)))
@@ -562,6 +577,57 @@ func runC15(ctx Ctx) int {
 			run.Outcome("history:same")
 		}
 	})
+	// history companion with a storage failure at the last step: b1 ; (one storage operation fails once) ; b2. The reply to b2
+	// equals the reply b2 gets on a FRESH provider with the same failure, and shares no message ID with the reply to b1
+	// (state kept from an earlier request must not be served to a later one, whatever goes wrong in between)
+	faultOps := []string{"GetResponseSigningKey", "GetMetadataSigningKey", "GetEntityByID", "AuthRequestByID", "GetEntityIDByAppID", "SetUserinfoWithUserID", "SetUserinfoWithLoginName", "CreateAuthRequest"}
+	type fcase struct{ b1, b2, op int }
+	var fcases []fcase
+	for i := range bs {
+		for j := range bs {
+			for o := range faultOps {
+				fcases = append(fcases, fcase{i, j, o})
+			}
+		}
+	}
+	var soloF sync.Map
+	_, c3 := parallel(len(fcases), deadline, func(i int) {
+		fc := fcases[i]
+		key := fmt.Sprintf("%d/%d", fc.b2, fc.op)
+		var solo c15Obs
+		if v, ok := soloF.Load(key); ok {
+			solo = v.(c15Obs)
+		} else {
+			w := c15World()
+			w.Store.FaultNext(faultOps[fc.op], 1, world.FaultError)
+			solo = c15Observe(w.Do(bs[fc.b2].Req(w)))
+			soloF.Store(key, solo)
+		}
+		w := c15World()
+		first := c15Observe(w.Do(bs[fc.b1].Req(w)))
+		w.Store.FaultNext(faultOps[fc.op], 1, world.FaultError)
+		last := c15Observe(w.Do(bs[fc.b2].Req(w)))
+		run.Evaluations.Add(1)
+		run.Transitions.Add(2)
+		labels := []string{"history", "step=" + bs[fc.b1].Name, "then-one-failing=" + faultOps[fc.op], "step=" + bs[fc.b2].Name}
+		if last.Norm != solo.Norm {
+			run.Outcome("history-with-failure:differs")
+			run.Violate("reply-after-a-history-differs-from-the-reply-on-a-fresh-provider", "sequential", labels, map[string]any{"detail": diffHint(solo.Norm, last.Norm)}, nil)
+			return
+		}
+		for _, id := range last.IDs {
+			for _, id1 := range first.IDs {
+				if id == id1 {
+					run.Outcome("history-with-failure:id-reused")
+					run.Violate("message-id-not-unique", "sequential", labels, map[string]any{"id": id}, nil)
+					return
+				}
+			}
+		}
+		run.Outcome("history-with-failure:same")
+	})
+	c2 = c2 && c3
+	run.Set("histories_with_a_storage_failure", len(fcases))
 	// race companion
 	if raceExe := os.Getenv("VERIF_VCHECK_RACE"); raceExe != "" {
 		cmd := exec.Command(raceExe, "C15", "--race-worker")
